@@ -279,6 +279,28 @@ def g_case(c):
         tree = g1.g_document(c, mode="exec", max_defs=3)
         tree["frag_args"] = False
         stratum = "grammar-random"
+    if stratum in ("valid", "mutant") and c.chance(50):
+        # an operation and a fragment may share a name (separate name spaces): anything keyed by definition
+        # name alone confuses the two
+        ops = [d for d in tree["defs"] if d["k"] == "op" and not d.get("short") and d.get("n")]
+        frs = [d for d in tree["defs"] if d["k"] == "frag"]
+        if ops and frs:
+            old, new_name = frs[0]["n"], ops[0]["n"]
+
+            def ren(sels):
+                for s_ in sels or []:
+                    if s_["k"] == "spread" and s_["n"] == old:
+                        s_["n"] = new_name
+                    elif s_.get("sel"):
+                        ren(s_["sel"])
+
+            for d in tree["defs"]:
+                ren(d.get("sel"))
+            frs[0]["n"] = new_name
+            if c.chance(128):
+                # the fragment first: caches are filled in document order
+                tree["defs"] = [frs[0]] + [d for d in tree["defs"] if d is not frs[0]]
+            stratum += "+same-name"
     return {"model": dict(m), "tree": tree, "layout": c.ints(4) if c.chance(100) else [],
             "layout2": c.ints(12), "no_location": c.chance(80), "stratum": stratum,
             "custom_rules": stratum == "introspection" or c.chance(60),
